@@ -6,7 +6,7 @@ V=/tmp/wt/V
 git -C /repo worktree remove --force $V 2>/dev/null
 git -C /repo worktree add -q $V HEAD || exit 1
 LOG=/tmp/wt/out/verify.log; : > $LOG
-for d in /tmp/wt/out/C*/seed*/; do
+for d in /tmp/wt/out/C*/seed${SEEDS:-*}/; do
   id=$(basename $(dirname $d)); sd=$(basename $d)
   p=$d/patch.diff
   demo=$d/demo.py; [ -f $demo ] || demo=$d/demo_test.py
